@@ -37,7 +37,8 @@ def expected : List (Name × Nat × String) := [
   (nm! "twcc.maxMissingSequenceNumbers", 32766, "TWCC recorder (C05)"),
   (nm! "twcc.maxNumberOfPackets", 32768, "TWCC arrival map (C05, C12)"),
   (nm! "twcc.minCapacity", 128, "TWCC arrival map (C05, C12)"),
-  (nm! "twcc.packetWindowMicroseconds", 500000, "TWCC recorder history window (C05)")
+  (nm! "twcc.packetWindowMicroseconds", 500000, "TWCC recorder history window (C05)"),
+  (nm! "twcc.maxDeltaBytes", 49152, "TWCC feedback size cap, Model/Twcc.lean addReceived (C05, F-37)")
 ]
 
 def constOk (e : Name × Nat × String) : Bool := consts.any fun c => c.1 == e.1 && c.2 == e.2.1
